@@ -502,3 +502,313 @@ fn root_rename_body(b0: u8, b1: u8) {
 op_harness! { fn root_rename_base() { root_rename_body(P_OK, P_OK); } }
 op_harness! { fn root_rename_nobase2() { root_rename_body(P_OK, P_FAIL); } }
 op_harness! { fn root_rename_nobase1() { root_rename_body(P_FAIL, P_ANY); } }
+
+// ---------------------------------------------------------------------------
+// Root::remove_all top level: (parent, name) handed to utils::remove_all
+
+pub(crate) fn k_utils_remove_all<Fd: AsFd>(dirfd: Fd, name: &Path) -> Result<(), Error> {
+    let raw = dirfd.as_fd().as_raw_fd();
+    let (nm, nl) = copy_name(name);
+    let k = kmut();
+    k.touch(raw);
+    let mut c = NO_CALL;
+    c.kind = C_UNLINKAT; // stands for "the recursive removal of (dirfd, name)"
+    c.dirfd = raw;
+    c.name = nm;
+    c.name_len = nl;
+    c.flags = 0xdead;
+    if k.fails() {
+        c.errno = 1;
+        k.push(c);
+        Err(any_error())
+    } else {
+        c.ok = true;
+        k.push(c);
+        Ok(())
+    }
+}
+
+fn remove_all_top_body(base: u8) {
+    let (rootfd, root) = setup();
+    kmut().want_base = [base, base];
+    let p = SymPath::any();
+    let res = root.remove_all(p.path());
+    let (ok, ekind) = match &res { Ok(()) => (true, None), Err(e) => (false, Some(cheap_kind(e))) };
+    std::mem::forget(res);
+    let t = trace();
+    let r = ref_split(p.bytes());
+    assert!(t.nres == 1 && t.nmut <= 1);
+    if t.nmut == 1 {
+        let m = t.mutc;
+        assert!(m.flags == 0xdead && t.res[0].ok && r.has_base);
+        assert!(m.dirfd == t.res[0].ret_fd);
+        assert!(name_is_ref_base(&m.name, m.name_len, p.bytes(), &r));
+        assert!(ok == m.ok);
+    } else {
+        assert!(!ok);
+        if t.res[0].ok {
+            assert!(!r.has_base && ekind == Some(ErrorKind::InvalidArgument));
+        }
+    }
+    fd_table_clean(rootfd, 0);
+    kani::cover!(ok, "removed");
+    kani::cover!(ekind == Some(ErrorKind::InvalidArgument), "trailing slash refused");
+}
+
+macro_rules! rat_h {
+    ($name:ident, $b:expr) => {
+        #[kani::proof]
+        #[kani::unwind(7)]
+        #[kani::stub(crate::root::RootRef::resolve_parent, crate::root::RootRef::k_resolve_parent)]
+        #[kani::stub(crate::utils::remove_all, k_utils_remove_all)]
+        #[kani::stub(alloc::fmt::format, k_format)]
+        fn $name() {
+            remove_all_top_body($b);
+        }
+    };
+}
+rat_h!(root_remove_all_top_base, P_OK);
+rat_h!(root_remove_all_top_nobase, P_FAIL);
+
+// ---------------------------------------------------------------------------
+// Root::mkdir_all
+
+use crate::resolvers::PartialLookup;
+
+/// `Resolver::resolve_partial`: Complete(handle) | Partial{handle, remaining,
+/// last_error} | Err, shape chosen by the harness scenario, data arbitrary.
+/// scenario: 0 = complete, 1 = partial with ENOENT, 2 = partial with another error, 3 = Err
+pub(crate) fn k_resolve_partial<Fd: AsFd, P: AsRef<Path>>(
+    _this: &Resolver,
+    root: Fd,
+    _path: P,
+    _no_follow_trailing: bool,
+) -> Result<PartialLookup<Handle>, Error> {
+    let raw = root.as_fd().as_raw_fd();
+    let k = kmut();
+    k.touch(raw);
+    let mut c = NO_CALL;
+    c.kind = C_RESOLVE;
+    c.dirfd = raw;
+    let scen = crate::verif_kani::kernel::scratch_get().0;
+    if scen == 3 {
+        c.errno = 1;
+        k.push(c);
+        return Err(any_error());
+    }
+    let fd = k.new_fd(O_RESOLVER, raw, true, (libc::O_PATH | libc::O_CLOEXEC) as u64);
+    c.ok = true;
+    c.ret_fd = fd;
+    k.push(c);
+    let handle = Handle::from_fd(owned_fd(fd));
+    if scen == 0 {
+        Ok(PartialLookup::Complete(handle))
+    } else {
+        let errno = if scen == 1 {
+            libc::ENOENT
+        } else {
+            let e = any_errno();
+            kani::assume(e != libc::ENOENT);
+            e
+        };
+        // the not-yet-existing tail: every byte string <= L chosen by the harness
+        let (buf, len) = crate::verif_kani::kernel::tail_get();
+        let remaining = PathBuf::from(OsStr::from_bytes(&buf[..len]));
+        Ok(PartialLookup::Partial {
+            handle,
+            remaining,
+            last_error: ErrorImpl::OsError {
+                operation: "stub".into(),
+                source: IOError::from_raw_os_error(errno),
+            }
+            .into(),
+        })
+    }
+}
+
+impl Handle {
+    /// `Handle::reopen`: arbitrary descriptor (same object: stays in-root) or error
+    pub(crate) fn k_handle_reopen<F: Into<OpenFlags>>(&self, flags: F) -> Result<File, Error> {
+        let raw = self.as_fd().as_raw_fd();
+        let k = kmut();
+        k.touch(raw);
+        let mut c = NO_CALL;
+        c.kind = C_REOPEN;
+        c.dirfd = raw;
+        c.flags = flags.into().bits() as u32 as u64;
+        if k.fails() {
+            c.errno = 1;
+            k.push(c);
+            Err(any_error())
+        } else {
+            let fd = k.new_fd(O_OPENED, raw, true, c.flags | libc::O_CLOEXEC as u64);
+            c.ok = true;
+            c.ret_fd = fd;
+            k.push(c);
+            Ok(File::from(owned_fd(fd)))
+        }
+    }
+}
+
+pub(crate) fn k_unsafe_path_unchecked<Fd: AsFd>(_this: &Fd) -> Result<PathBuf, Error> {
+    Err(any_error())
+}
+
+/// reference: non-empty, non-"." components of the tail, in order (at most 2 fit in L <= 4... 3 bytes each)
+struct Comps {
+    n: usize,
+    start: [usize; 3],
+    len: [usize; 3],
+    dotdot: bool,
+}
+
+fn ref_components(b: &[u8]) -> Comps {
+    let mut c = Comps { n: 0, start: [0; 3], len: [0; 3], dotdot: false };
+    let mut s = 0;
+    let mut i = 0;
+    while i <= PATH_L {
+        if i <= b.len() && (i == b.len() || b[i] == b'/') {
+            let l = i - s;
+            let is_dot = l == 1 && b[s] == b'.';
+            if l > 0 && !is_dot {
+                if l == 2 && b[s] == b'.' && b[s + 1] == b'.' {
+                    c.dotdot = true;
+                }
+                if c.n < 3 {
+                    c.start[c.n] = s;
+                    c.len[c.n] = l;
+                }
+                c.n += 1;
+            }
+            s = i + 1;
+        }
+        i += 1;
+    }
+    c
+}
+
+fn mkdir_all_body(scen: u64) {
+    let (rootfd, root) = setup();
+    let tail = SymPath::any();
+    crate::verif_kani::kernel::scratch_set(scen, 0, 0, 0);
+    crate::verif_kani::kernel::tail_set(&tail.buf, tail.len);
+    let mode: u32 = kani::any();
+    kani::assume(mode & !0o1777 == 0); // invalid modes: root_mkdir_all_bad_mode
+    let res = root.mkdir_all(Path::new("p"), &Permissions::from_mode(mode));
+    let (ok, retfd, ekind) = match &res {
+        Ok(h) => (true, h.as_fd().as_raw_fd(), None),
+        Err(e) => (false, -1, Some(cheap_kind(e))),
+    };
+    std::mem::forget(res);
+    let k = kref();
+    assert!(!k.any_violation());
+    assert!(k.ncalls >= 1 && k.log[0].kind == C_RESOLVE && k.log[0].dirfd == rootfd);
+    let nmk = k.count(C_MKDIRAT);
+    let nop = k.count(C_OPENAT);
+    if scen >= 2 {
+        // resolver error / partial lookup that stopped for a reason other than ENOENT:
+        // nothing is created
+        assert!(!ok && nmk == 0 && nop == 0 && k.count(C_REOPEN) == 0);
+    } else {
+        // the deepest existing directory is re-opened O_DIRECTORY first
+        assert!(k.ncalls >= 2 && k.log[1].kind == C_REOPEN && k.log[1].dirfd == k.log[0].ret_fd);
+        assert!(k.log[1].flags == libc::O_DIRECTORY as u32 as u64);
+        let comps = if scen == 1 { ref_components(tail.bytes()) } else { Comps { n: 0, start: [0; 3], len: [0; 3], dotdot: false } };
+        if !k.log[1].ok {
+            assert!(!ok && nmk == 0 && nop == 0);
+        } else if comps.dotdot {
+            // '..' in the yet-to-be-created tail is refused before anything is created
+            assert!(!ok && nmk == 0 && nop == 0);
+            assert!(ekind == Some(ErrorKind::OsError(Some(libc::ENOENT))));
+        } else {
+            assert!(comps.n <= 3);
+            // calls 2.. alternate mkdirat / openat, one pair per component, chained
+            let mut cur = k.log[1].ret_fd;
+            let mut idx = 2;
+            let mut ci = 0;
+            let mut aborted = false;
+            while ci < 3 {
+                if ci < comps.n && !aborted {
+                    assert!(idx < k.ncalls);
+                    let mk = k.log[idx];
+                    assert!(mk.kind == C_MKDIRAT && mk.dirfd == cur && mk.mode == mode);
+                    assert!(bytes_eq(&mk.name, mk.name_len, &tail.buf[comps.start[ci]..], comps.len[ci]));
+                    assert!(safe_component(&mk.name, mk.name_len));
+                    if !mk.ok && mk.errno != libc::EEXIST {
+                        aborted = true;
+                        assert!(k.ncalls == idx + 1 && !ok);
+                        assert!(ekind == Some(ErrorKind::OsError(Some(mk.errno))));
+                    } else {
+                        assert!(idx + 1 < k.ncalls);
+                        let op = k.log[idx + 1];
+                        assert!(op.kind == C_OPENAT && op.dirfd == cur);
+                        assert!(bytes_eq(&op.name, op.name_len, &tail.buf[comps.start[ci]..], comps.len[ci]));
+                        let want = (libc::O_DIRECTORY | libc::O_NOFOLLOW | libc::O_CLOEXEC | libc::O_NOCTTY) as u32 as u64;
+                        assert!(op.flags == want);
+                        if !op.ok {
+                            aborted = true;
+                            assert!(k.ncalls == idx + 2 && !ok);
+                        } else {
+                            cur = op.ret_fd;
+                            idx += 2;
+                        }
+                    }
+                }
+                ci += 1;
+            }
+            if !aborted {
+                assert!(k.ncalls == idx);
+                assert!(ok && retfd == cur);
+            }
+        }
+    }
+    // C11: root + (returned handle) only
+    assert!(k.n_open() == 1 + if ok { 1 } else { 0 });
+    assert!(k.ent(rootfd).unwrap().open);
+    kani::cover!(ok && nmk == 0, "nothing to create");
+    kani::cover!(ok && nmk == 1, "one directory created");
+    kani::cover!(ok && nmk == 2, "two directories created");
+    kani::cover!(!ok && nmk == 0 && scen == 1 && k.count(C_REOPEN) == 1 && k.log[1].ok, "dotdot refused");
+    kani::cover!(!ok && nmk >= 1, "aborted midway");
+}
+
+macro_rules! mk_h {
+    ($name:ident, $scen:expr) => {
+        #[kani::proof]
+        #[kani::unwind(8)]
+        #[kani::stub(crate::resolvers::Resolver::resolve_partial, k_resolve_partial)]
+        #[kani::stub(crate::handle::Handle::reopen, crate::handle::Handle::k_handle_reopen)]
+        #[kani::stub(<std::os::unix::io::BorrowedFd<'static> as crate::utils::FdExt>::as_unsafe_path_unchecked, k_unsafe_path_unchecked)]
+        #[kani::stub(crate::syscalls::mkdirat, k_mkdirat)]
+        #[kani::stub(crate::syscalls::openat_follow, k_openat_follow)]
+        #[kani::stub(mc::memchr::memchr, k_memchr)]
+        #[kani::stub(mc::memchr::memrchr, k_memrchr)]
+        #[kani::stub(alloc::fmt::format, k_format)]
+        fn $name() {
+            mkdir_all_body($scen);
+        }
+    };
+}
+mk_h!(root_mkdir_all_complete, 0);
+mk_h!(root_mkdir_all_tail, 1);
+mk_h!(root_mkdir_all_partial_other_error, 2);
+mk_h!(root_mkdir_all_resolver_error, 3);
+
+#[kani::proof]
+#[kani::unwind(6)]
+#[kani::stub(crate::resolvers::Resolver::resolve_partial, k_resolve_partial)]
+#[kani::stub(alloc::fmt::format, k_format)]
+fn root_mkdir_all_bad_mode() {
+    let (_rootfd, root) = setup();
+    let mode: u32 = kani::any();
+    kani::assume(mode & !0o1777 != 0);
+    let res = root.mkdir_all(Path::new("p"), &Permissions::from_mode(mode));
+    match &res {
+        Ok(_) => assert!(false, "mode with type / setuid / setgid bits accepted"),
+        Err(e) => assert!(cheap_kind(e) == ErrorKind::InvalidArgument),
+    }
+    std::mem::forget(res);
+    assert!(kref().ncalls == 0, "invalid mode must be refused before any lookup");
+    kani::cover!(mode == 0o2755, "setgid refused");
+    kani::cover!(mode == libc::S_IFDIR | 0o755, "type bits refused");
+}
